@@ -494,7 +494,14 @@ class SymReal:
     __ceil__ = ceil
 
     def rint(s):
-        raise Inconclusive('rint on a symbol is not modelled')
+        # nearest integer; ties go either way in this model (numpy: to even) -- over-approximation
+        if s.integral:
+            return s
+        c = ctx()
+        k = z3.Real(c.name('rint'))
+        c.ints[k.get_id()] = k
+        c.pc.append(z3.And(2 * (k - s.t) <= 1, 2 * (k - s.t) >= -1))
+        return SymReal(k, True)
 
     def __round__(s, n=None):
         raise Inconclusive('round() on a symbol is not modelled')
